@@ -186,9 +186,15 @@ def run(tier, seed):
                     cplans.append({"id": "hup-%s-%s-%d" % (target[:5], mode, j), "cfg": base_cfg, "srv": srv})
         ctrace, cblobs, cdecoded, cdec = conn.run_plans(wd, cplans, "c07tls", v=v, key="nla:cssp_connect:abort")
         tls_out = {}
+        cur_run = None
+        cbyid = {p["id"]: p for p in cplans}
         for l in open(ctrace):
+            if '"ev":"reset"' in l:
+                cur_run = json.loads(l).get("run")
             if '"api":"connect"' in l:
                 e = json.loads(l)
+                e["run"] = cur_run
+                e["plan_srv"] = {k: val for k, val in cbyid.get(cur_run, {}).get("srv", {}).items() if k in ("challenge_faults", "final", "close_after", "close_mode")}
                 tls_out[e["res"]] = tls_out.get(e["res"], 0) + 1
                 if e.get("maxreq", 0) > 1 << 20:
                     v.violation("nla:cssp_connect:alloc", "cssp_connect over TLS: a single allocation of %d bytes was requested while the server had sent less than 2 KiB (largest legitimate buffer: 64 KiB)" % e["maxreq"], {"event": e})
